@@ -394,3 +394,4 @@ contract(CTFY, props=['C01'],
 REG_CTFY = None
 from .reg import REG as _REG
 _REG[CTFY].separated = lambda c: [(c.ex.ptr_to_bv(c.args[0]), 64), (c.ex.ptr_to_bv(c.args[3]), 24), (c.old.field(c.args[3], MATCH, 'era'), 24)]
+
